@@ -150,6 +150,22 @@ def run_cr(c):
         vals = vals[:1]
     for v in vals:
         ck.check(C.p1_eq(complex(v), (X.to_complex(num), X.to_complex(den)), 1e-6), site + ":value", (complex(v), (str(num), str(den)), c["order"]))
+    if form == "planes3" and not c["coll"] and not c["transform"]:
+        # two more pencils of planes right afterwards, about the axes through the origin with the directions (1, 1, 0) and (1, -1, 0)
+        # (orthogonal axes with the same dominant coordinate): the value is that of the parameters for each pencil
+        for dirn in ([1, 1, 0], [1, -1, 0], [1, 1, 1], [2, -1, -1]):
+            try:
+                a2, kw2, pars2 = build_config(dict(c, V=[0, 0, 0, 1], W=dirn + [1]))
+            except Skip:
+                continue
+            a2 = [a2[i] for i in order]
+            pars2 = [pars2[i] for i in order]
+            n2, d2 = cr_exact(pars2)
+            r2, f = call(site + ":second-pencil", lambda: crossratio(*a2, **kw2))
+            if f:
+                ck.add(f)
+                continue
+            ck.check(C.p1_eq(complex(np.asarray(r2).ravel()[0]), (X.to_complex(n2), X.to_complex(d2)), 1e-6), site + ":second-pencil:value", (complex(np.asarray(r2).ravel()[0]), (str(n2), str(d2)), dirn))
     return ck.result()
 
 
